@@ -384,6 +384,10 @@ MISC = [
 
 # inputs that reproduce RECORDED FINDINGS (known_findings.json) and are rejected outright: run by C01 only
 FINDING_ENTRIES = [
+    ("retattr.align", "declare align 8 i8* @f()\n", ["declare align 8 i8* @f()"]),
+    ("retattr.string", 'declare "k"="v" i8* @f()\n', ['declare "k"="v" i8* @f()']),
+    ("retattr.align-call", "declare i8* @f()\n\ndefine void @g() {\n\t%r = call align 8 i8* @f()\n\tret void\n}\n", ["%r = call align 8 i8* @f()"]),
+    ("global.metadata-before-align", "@g = global i32 0, !foo !0, align 4\n\n!0 = !{}\n", ["@g = global i32 0, align 4, !foo !0"]),
     ("freeze.metadata-attachment", "define i32 @f(i32 %a) {\n\t%r = freeze i32 %a, !x !0\n\tret i32 %r\n}\n\n!0 = !{}\n", ["%r = freeze i32 %a, !x !0"]),
 ]
 
